@@ -191,6 +191,10 @@ def run_solver_case(ctx, case):
             kwargs["ready_operations_filter"] = [
                 n if (form == "string" or (form == "composite" and k % 2)) else ReadyOperationsFilterType(n)
                 for k, n in enumerate(names)]
+            if case["seed"] % 5 == 0:
+                # any iterable is accepted: here a one-shot iterator
+                kwargs["ready_operations_filter"] = iter(kwargs["ready_operations_filter"])
+                ctx.count("filters_given_as_a_one_shot_iterator")
         else:
             kwargs["ready_operations_filter"] = gen.make_filter(filt)
     solver_cls = DispatchingRuleSolver
@@ -305,48 +309,57 @@ def run_solver_case(ctx, case):
 
     solver.dispatching_rule = rule_rec
     solver.machine_chooser = chooser_rec
-    api = case["api"]
-    t0 = time.perf_counter()
-    try:
-        if api == "solve":
-            S = solver.solve(instance)
-        elif api == "solve_dispatcher":
-            d = Dispatcher(instance, ready_operations_filter=solver.ready_operations_filter)
-            S = solver.solve(instance, d)
-        elif api == "solve_partial":
-            # the solver takes over a dispatcher that already holds a partial schedule
-            d = Dispatcher(instance, ready_operations_filter=solver.ready_operations_filter)
-            state["tracker"] = Tracker(inst, d)
-            pre = rng.randint(1, max(1, N - 1))
-            for _ in range(pre):
-                rr = state["tracker"].r
-                o = rng.choice(rr.ready())
-                d.dispatch(ops[o], rng.choice(rr.op_machines[o]))
-            N = N - pre
-            ctx.count("solver_took_over_partial_schedule")
-            S = solver.solve(instance, d)
-        else:
-            S = solver(instance)
-    except Exception as e:
-        r = state["tracker"].r if state["tracker"] else ref0
-        ctx.violation("c04_solver_raised",
-                      {"error": repr(e)[:300], "rule": rule, "filter": names,
-                       "history": list(r.history), "chooser": chooser})
-        return
-    wall = time.perf_counter() - t0
-    errs = feasibility_errors(ref0, schedule_triples(S), require_complete=True)
-    if errs or not S.is_complete():
-        ctx.violation("c04_result_infeasible_or_incomplete", {"errors": errs[:5], "rule": rule})
-    if state["steps"] != N:
-        ctx.violation("c04_wrong_number_of_steps", {"steps": state["steps"], "operations": N})
-    if api == "call":
-        ctx.count("call_metadata_checks")
-        et = S.metadata.get("elapsed_time")
-        if not isinstance(et, float) or not math.isfinite(et) or et < 0 or et > wall + 1e-6:
-            ctx.violation("c04_elapsed_time_metadata", {"elapsed_time": et, "measured_wall": wall})
-        if S.metadata.get("solved_by") != solver_cls.__name__:
-            ctx.violation("c04_solved_by_metadata", {"solved_by": S.metadata.get("solved_by"),
-                                                     "solver_class": solver_cls.__name__})
+    # the same solver object (and rule object) may serve a second run on the same instance object:
+    # it is judged like the first
+    rounds = 2 if case["seed"] % 4 == 1 and case["api"] in ("solve", "call") else 1
+    N0 = N
+    for round_no in range(rounds):
+        if round_no:
+            state.update(tracker=None, steps=0, last_op=None)
+            N = N0
+            ctx.count("second_runs_of_the_same_solver_object")
+        api = case["api"]
+        t0 = time.perf_counter()
+        try:
+            if api == "solve":
+                S = solver.solve(instance)
+            elif api == "solve_dispatcher":
+                d = Dispatcher(instance, ready_operations_filter=solver.ready_operations_filter)
+                S = solver.solve(instance, d)
+            elif api == "solve_partial":
+                # the solver takes over a dispatcher that already holds a partial schedule
+                d = Dispatcher(instance, ready_operations_filter=solver.ready_operations_filter)
+                state["tracker"] = Tracker(inst, d)
+                pre = rng.randint(1, max(1, N - 1))
+                for _ in range(pre):
+                    rr = state["tracker"].r
+                    o = rng.choice(rr.ready())
+                    d.dispatch(ops[o], rng.choice(rr.op_machines[o]))
+                N = N - pre
+                ctx.count("solver_took_over_partial_schedule")
+                S = solver.solve(instance, d)
+            else:
+                S = solver(instance)
+        except Exception as e:
+            r = state["tracker"].r if state["tracker"] else ref0
+            ctx.violation("c04_solver_raised",
+                          {"error": repr(e)[:300], "rule": rule, "filter": names,
+                           "history": list(r.history), "chooser": chooser})
+            return
+        wall = time.perf_counter() - t0
+        errs = feasibility_errors(ref0, schedule_triples(S), require_complete=True)
+        if errs or not S.is_complete():
+            ctx.violation("c04_result_infeasible_or_incomplete", {"errors": errs[:5], "rule": rule})
+        if state["steps"] != N:
+            ctx.violation("c04_wrong_number_of_steps", {"steps": state["steps"], "operations": N})
+        if api == "call":
+            ctx.count("call_metadata_checks")
+            et = S.metadata.get("elapsed_time")
+            if not isinstance(et, float) or not math.isfinite(et) or et < 0 or et > wall + 1e-6:
+                ctx.violation("c04_elapsed_time_metadata", {"elapsed_time": et, "measured_wall": wall})
+            if S.metadata.get("solved_by") != solver_cls.__name__:
+                ctx.violation("c04_solved_by_metadata", {"solved_by": S.metadata.get("solved_by"),
+                                                         "solver_class": solver_cls.__name__})
     ctx.note_case(case, state["nontrivial"], fingerprint=str(hash(
         (gen.fingerprint(inst), str(rule), chooser, str(filt), api))))
     ctx.count("class_" + inst["cls"])
